@@ -1,13 +1,18 @@
 #!/bin/sh
 # usage: tools/mutant.sh <patch.diff> <tier> <prop> [<prop>...]
-# Applies the patch to /repo, runs the given checks, restores /repo.  Prints one line per check.
+# Applies the patch to a scratch worktree of /repo (never to /repo itself), runs the given checks
+# against it (VERIF_REPO), and restores the worktree.  Evidence/replay of these runs go to $MUT_OUT.
 PATCH=$(realpath "$1"); TIER=$2; shift 2
 cd "$(dirname "$0")/.."
-if ! git -C /repo diff --quiet; then echo "/repo is dirty; refusing"; exit 3; fi
-git -C /repo apply "$PATCH" || { echo "patch does not apply: $PATCH"; exit 3; }
-trap 'git -C /repo checkout -- . ' EXIT INT TERM
+WT=${MUT_WT:-/tmp/wt/mutant}
+MUT_OUT=${MUT_OUT:-/tmp/mutout}
+mkdir -p "$MUT_OUT"
+if [ ! -d "$WT" ]; then git -C /repo worktree add -q --detach "$WT" HEAD || exit 3; fi
+git -C "$WT" checkout -q --detach "$(git -C /repo rev-parse HEAD)" && git -C "$WT" checkout -q -- . || exit 3
+git -C "$WT" apply "$PATCH" || { echo "patch does not apply: $PATCH"; exit 3; }
+trap 'git -C "$WT" checkout -q -- . ' EXIT INT TERM
 for P in "$@"; do
-  ./check $P $TIER > /tmp/mutant-$P.log 2>&1; rc=$?
-  echo "$(basename $(dirname $PATCH))/$(basename $PATCH) $P rc=$rc $(grep -E "^$P tier" /tmp/mutant-$P.log | cut -c1-120)"
-  grep -E "^  tally" /tmp/mutant-$P.log | head -4
+  VERIF_REPO="$WT" VERIF_OUT="$MUT_OUT" ./check $P $TIER > "$MUT_OUT/mutant-$P.log" 2>&1; rc=$?
+  echo "$(basename $(dirname $PATCH))/$(basename $PATCH) $P rc=$rc $(grep -E "^$P tier" "$MUT_OUT/mutant-$P.log" | cut -c1-120)"
+  grep -E "^  tally" "$MUT_OUT/mutant-$P.log" | cut -c1-220 | head -4
 done
